@@ -7,7 +7,7 @@ from vlib import common
 def key_fn(case, obs, verdict):
     f = case.split(" ")
     v = verdict[4:] if verdict.startswith("BAD:") else verdict
-    if v.startswith("iterations-differ-in-"):
+    if v.startswith("iterations-differ-in-") or v.startswith("open-window-"):
         # contended drains: which observable deviated in some iteration (the values are timing dependent)
         return "%s:%s" % (f[0], v.split(" ")[0])
     # family = case kind + what fails, with the concrete numbers removed
@@ -34,6 +34,12 @@ TRUSTED = [
     "modelled, not verified: leaf token offsets (given as tables drained from fresh real leaves; property C01), "
     "sync.RWMutex / sync.Once / go.uber.org/atomic atomicity, the wall clock (oracle input); the merge of started.Store / "
     "started.Load into the adjacent lock sections (design/C02.md)",
+    "doAtSchedule below the atomic-leaf level (Properties/C02_leaf.v, Model/SchedLeafConc.v): one step per shared access, sync.Once as "
+    "skip-when-done / wait-while-busy / done+release at the end of the body; the method bodies are re-read from do_at.go / start_sync.go "
+    "by harness/cmd/trC02 (go/ast -> Gen/SchedSyncGen.v, bridge_doat_sync); composition with the composite theorems is argued, not proved; "
+    "unlimitedSchedule operations stay atomic by assumption",
+    "factory-made schedules (Properties/C02_factory.v, Model/SchedFactory.v): store-free model, a factory call runs the constructors again; "
+    "that the real registry hands out schedules sharing no part is observed by the fact cases only",
     "nested composites under concurrency (Properties/C02_nested.v, Model/SchedNested.v): child operations under a read lock are interleaved "
     "sequences of the child's own sections (proved for every depth); write sections are atomic steps enabled only while no other thread "
     "holds the composite's read lock (sync.RWMutex), their child calls are the sequential s_next (= a solo run of the nested steps, proved); "
